@@ -3,6 +3,7 @@ use internal_macros::EnumDebug;
 use std::error::Error;
 
 use super::{
+    encoding_rules::per_visible::per_visible_range_constraints,
     error::{GrammarError, GrammarErrorType},
     information_object::{InformationObjectFields, ObjectSet},
     ASN1Type, ASN1Value, IntegerType,
@@ -57,6 +58,18 @@ impl Constraint {
                 min = (*i).min(min);
                 max = (*i).max(max);
             };
+        } else if let Ok(per_visible) =
+            per_visible_range_constraints(true, std::slice::from_ref(self))
+        {
+            // a set of ranges and single values (`1..5 | 10`): the bounds that component
+            // types are chosen by, so that values and DEFAULTs get the type of their component
+            is_extensible = is_extensible || per_visible.is_extensible();
+            if let (Some(lower), Some(upper)) =
+                (per_visible.min::<i128>(), per_visible.max::<i128>())
+            {
+                min = lower;
+                max = upper;
+            }
         };
         if min > max || is_extensible {
             IntegerType::Unbounded
